@@ -155,6 +155,7 @@ class Atmos:
         from taurex.constants import RJUP, RSOL
         from .fixtures import LayerOpacity
         self.kind = kind
+        self.ngauss = ngauss
         self.wn = np.asarray(wn, dtype=float)
         self.temps = [float(t) for t in temps]
         n = nlayers or len(temps)
